@@ -64,6 +64,8 @@ fn list(s: &str) -> Vec<&str> {
 enum RItem {
     Deliver(usize),
     Interrupt,
+    /// returns Ok(0) although data remains (a source that is appended to later); not part of the model
+    Zero,
     Fail(usize),
 }
 #[derive(Clone, Debug)]
@@ -87,6 +89,7 @@ impl Read for Src {
         let n = match self.rs.pop_front() {
             None => offered.min(remaining),
             Some(RItem::Deliver(m)) => (m + 1).min(offered).min(remaining),
+            Some(RItem::Zero) => 0,
             Some(RItem::Interrupt) => {
                 self.log.borrow_mut().push(format!("r{}:I", offered));
                 return Err(io::Error::new(io::ErrorKind::Interrupted, "interrupted"));
@@ -900,6 +903,8 @@ fn main() {
                         RItem::Deliver(n.parse().unwrap())
                     } else if let Some(k) = x.strip_prefix('F') {
                         RItem::Fail(k.parse().unwrap())
+                    } else if *x == "Z" {
+                        RItem::Zero
                     } else {
                         RItem::Interrupt
                     }
